@@ -1111,6 +1111,9 @@ func (f *FnEnc) saveLocalsAt(ws writeSet, st *State) []savedLocal {
 		if f.escaped[a] {
 			continue
 		}
+		if f.noRestore[a] {
+			continue // written by the loop whose havoc this is: its value is NOT what it was before
+		}
 		if !f.localCompsHit(derefType(a.Type()), ws) {
 			continue // its components are not havocked at all
 		}
